@@ -256,7 +256,7 @@ theorem C13_bucket_location_roundtrip (X : Ext) (tag : Bytes) (ns : Option Bytes
 
 /-- **The tokeniser reads back what the writer wrote.** For every well-nested event sequence (`WN`: element names of
 name bytes, at most the `xmlns` attribute, texts non-empty, `<`-free and never adjacent; a text outside every
-element is white space — since 4f52948 the deserialiser refuses any other character data there) that begins with a
+element is white space — since d51737b the deserialiser refuses any other character data there) that begins with a
 tag, `Deserializer` over the written bytes sees exactly the written events — and everything the encoder produces for
 a schema with good element names is such a sequence (next theorem). -/
 theorem C13_tokenize_write (evs : List Ev) (hhead : headNotText evs = true) (h : WN [] evs) :
@@ -316,7 +316,7 @@ theorem C13_bytes_roundtrip (X : Ext) (t : Ty) (hde : (deDef t).isSome = true) :
 /-- **Schema-strict acceptance** — the clauses of the property, each a fact about the decoder that mirrors
 the Rust code statement by statement:
 
-1. *expected root, nothing before or after the root* (FULL since the repair 4f52948 of `Deserializer::read_event`;
+1. *expected root, nothing before or after the root* (FULL since the repair d51737b of `Deserializer::read_event`;
    until then text outside the root was skipped, finding `xml-text-outside-root`, now fixed): for every token
    sequence `q` of a document, an accepted document is `ws* <root …> content text* </root> ws*` and the end of
    input, where `ws` is a text piece of white space only (space, tab, CR, LF) — no other character data and no
